@@ -42,11 +42,28 @@ pub fn run_seq(chk: &SeqCheck, rep: &mut Report, n: u64) {
         let mut part = Report::new(prop, tier, seed, "exploration");
         let mut cells: BTreeMap<String, u64> = BTreeMap::new();
         let mut modes: BTreeMap<String, u64> = BTreeMap::new();
+        let mut scales: BTreeMap<String, u64> = BTreeMap::new();
         let mut i = w as u64;
         while i < n {
-            let cfg = &chk.cfgs[(i % chk.cfgs.len() as u64) as usize];
+            let cfg = &chk.cfgs[(i % chk.cfgs.len() as u64) as usize].scaled(seed, i);
             let tr = hseq::gen_and_run(cfg, Rng::derive(seed, i));
             part.evaluations += 1;
+            if !cfg.scale.is_empty() {
+                *scales.entry(cfg.scale.to_string()).or_default() += 1;
+            }
+            let widest = tr.recs.iter().map(|r| r.after.orders.len()).max().unwrap_or(0) as u64;
+            part.maxset("max_resting_orders_seen", widest);
+            part.maxset("max_operations_in_one_history", tr.recs.len() as u64);
+            let most_tx = tr
+                .recs
+                .iter()
+                .filter_map(|r| match &r.res {
+                    hseq::HRes::Matched(m) => Some(m.transactions.as_vec().len() as u64),
+                    _ => None,
+                })
+                .max()
+                .unwrap_or(0);
+            part.maxset("max_transactions_in_one_match", most_tx);
             *modes.entry(cfg.name.to_string()).or_default() += 1;
             part.add("operations", tr.recs.len() as u64);
             hseq::kind_cells(&tr, &mut cells);
@@ -74,13 +91,14 @@ pub fn run_seq(chk: &SeqCheck, rep: &mut Report, n: u64) {
         }
         part.set("per_cell", json!(cells));
         part.set("histories_per_mode", json!(modes));
+        part.set("histories_per_scale_tier", json!(scales));
         part
     });
 }
 
 /// Re-executes one recorded case (same generator, same seed) and prints the verdict.
 pub fn replay_seq(chk: &SeqCheck, case: u64, seed: u64) -> i32 {
-    let cfg = &chk.cfgs[(case % chk.cfgs.len() as u64) as usize];
+    let cfg = &chk.cfgs[(case % chk.cfgs.len() as u64) as usize].scaled(seed, case);
     let tr = hseq::gen_and_run(cfg, Rng::derive(seed, case));
     let mut scratch = Report::new(chk.prop, Tier::Quick, seed, "exploration");
     let (fds, _) = (chk.judge)(&tr, &mut scratch);
@@ -493,7 +511,7 @@ pub fn budget(tier: Tier, quick: u64, thorough: u64) -> u64 {
     (tier.pick(quick, thorough) as f64 * scale) as u64
 }
 
-pub const RULE_HSEQ: &str = "seeded random single-threaded histories (mode-mixed: op mix, order types, zero quantities, id re-use, timestamps, boundary magnitudes) generated online against the real level; distinct = distinct operation sequences (hash of the rendered history); ";
+pub const RULE_HSEQ: &str = "seeded random single-threaded histories (mode-mixed: op mix, order types, zero quantities, id re-use, timestamps, boundary magnitudes) generated online against the real level; orthogonal scale tiers chosen per case (1/16 of the cases start from 31-200 resting orders, 1/256 from 260-1100, 1/256 run 1500-9000 operations, 1/8 use mid-magnitude quantities 10^2..10^9 with hidden parts within a percent of the display, 1/8 timestamps straddling 2^41 / 2^48 / 2^53 / 2^63, 1/16 of the short ones a level price beyond 2^53, 1/40 of the matches ask for 2^32..2^64-1) plus sparse-observation bulk scenarios (31-70 000 one-fill orders added and cancelled blind, up to 131 072 mutations between two listings, restore, both twins drained; exact oracle); distinct = distinct operation sequences (hash of the rendered history); ";
 
 pub const ASSUME_SEQ: [&str; 4] = [
     "ids unique among the orders resting at the same time",
